@@ -82,7 +82,15 @@ def justified : List (PairKey × String) := [
 /-- Genuine unprotected pairs recorded as open findings (findings/C17.jsonl): key, finding id. -/
 def openFindings : List (PairKey × String) := []
 
-def isJustified (a b : Access) : Bool := justified.any fun e => keyMatches e.1 a b
+/-- Constructors: the object they fill in is not yet reachable by any other goroutine (it is
+    returned to the caller afterwards), so their unlocked accesses to its fields cannot race with
+    the accessors.  `kvindex.NewIndex` reloads `Fields` from the persisted field keys (C04's
+    repair) before returning the index. -/
+def constructors : List Nat := [F.kvindex_NewIndex]
+
+def isJustified (a b : Access) : Bool :=
+  (justified.any fun e => keyMatches e.1 a b) ||
+  ((constructors.contains a.fn && a.thread == 0) || (constructors.contains b.fn && b.thread == 0))
 def findingOf (a b : Access) : Option String :=
   (openFindings.find? fun e => keyMatches e.1 a b).map (·.2)
 def isFinding (a b : Access) : Bool := (findingOf a b).isSome
